@@ -277,6 +277,9 @@ func TestVerif_C04(t *testing.T) {
 			} else if g.Bool(70, "teamB") {
 				r.Metadata["team"] = "beta"
 			}
+			if g.Bool(70, "langmd") {
+				r.Metadata["lang"] = []string{"go", "py"}[(i/2+g.U(2, "langv"))%2]
+			}
 			r.Tombstone = false
 		}
 		if len(c.Corpus.Repos) < 3 && g.Bool(60, "threerepos") {
@@ -284,6 +287,15 @@ func TestVerif_C04(t *testing.T) {
 			c.Corpus.Repos[len(c.Corpus.Repos)-1].Tombstone = false
 		}
 		pool := []kit.QSpec{genMetaAtom(g), genMetaAtom(g), genMetaAtom(g), genMetaAtom(g)}
+		if g.Bool(50, "distinctpool") {
+			// atoms that tend to select different, proper subsets of the repositories
+			all := []kit.QSpec{{Op: "meta", Field: "team", Pat: "^alpha$"}, {Op: "meta", Field: "team", Pat: "beta"}, {Op: "meta", Field: "lang", Pat: "go"},
+				{Op: "meta", Field: "lang", Pat: "py"}, {Op: "meta", Field: "team", Pat: "alphabet"}, {Op: "meta", Field: "team", Pat: "alpha"}}
+			pool = nil
+			for _, k := range rapid.Permutation([]int{0, 1, 2, 3, 4, 5}).Draw(g.T, "poolperm")[:4] {
+				pool = append(pool, all[k])
+			}
+		}
 		// repository filters that print alike (same number of members) and
 		// select different repositories: id sets of equal size, name sets of
 		// more than five names
@@ -298,7 +310,7 @@ func TestVerif_C04(t *testing.T) {
 		}
 		n := g.Int(2, 12, "nhist")
 		for i := 0; i < n; i++ {
-			switch g.U(9, "hk") {
+			switch g.U(10, "hk") {
 			case 6, 7:
 				// a repository filter of the pool, alone or with text
 				f := kit.Pick(g, rpool, "rpool")
@@ -307,7 +319,7 @@ func TestVerif_C04(t *testing.T) {
 					f = kit.QSpec{Op: "and", Kids: []kit.QSpec{f, txt}}
 				}
 				c.History = append(c.History, f)
-			case 8:
+			case 8, 9:
 				// one query with three or four metadata atoms (more than a small cache holds)
 				q := kit.QSpec{Op: kit.Pick(g, []string{"and", "or"}, "manyop")}
 				for _, k := range rapid.Permutation([]int{0, 1, 2, 3}).Draw(g.T, "manyperm")[:3+g.U(2, "manyn")] {
